@@ -127,7 +127,8 @@ def roundtrip_case(draw):
     for i, name in enumerate(("a1", "b1", "a2", "b2")):
         s[name] = [q["m"][i] for q in quads]
     s["moment_kind"] = "estimator"
-    return {"spec": s, "N": draw(st.sampled_from([8, 12, 24, 36, 60])), "variant": draw(st.integers(0, 3))}
+    return {"spec": s, "N": draw(st.one_of(st.sampled_from([8, 12, 24, 36, 60]), st.integers(8, 180))),
+            "variant": draw(st.integers(0, 3))}
 
 
 def run_roundtrip(c):
@@ -168,10 +169,32 @@ def run_roundtrip(c):
     return {"nontrivial": bool(pos.any()), "classes": [f"variant_{method}_{sm}", "layout_" + sc["layout"]]}
 
 
+def run_every_n(c):
+    """as_frequency_direction_spectrum(N) for EVERY N in 8..180 (the grid is built inside the library):
+    exactly N uniformly spaced directions and e(f) conserved."""
+    from ocean_science_utilities.wavespectra.spectrum import create_1d_spectrum
+    f = np.array([0.1, 0.2, 0.3])
+    e = np.array([1.0, 2.0, 0.5])
+    th = np.radians([40.0, 200.0, 310.0])
+    spec = create_1d_spectrum(f, e, np.datetime64("2022-01-01T00:00:00"), 0.0, 0.0, a1=0.6 * np.cos(th), b1=0.6 * np.sin(th),
+                              a2=0.2 * np.cos(2 * th), b2=0.2 * np.sin(2 * th), dims=("frequency",))
+    subs = []
+    for N in range(8, 181):
+        s2 = spec.as_frequency_direction_spectrum(N, method=c["method"])
+        d = np.asarray(s2.direction.values, dtype=float)
+        require(len(d) == N and np.allclose(d, np.arange(N) * 360.0 / N, atol=1e-9), "direction_grid",
+                f"N={N}: got {len(d)} directions, last={d[-1]!r}")
+        back = np.asarray(s2.e.values, dtype=float)
+        require(np.allclose(back, e, rtol=1e-9), "roundtrip_preserves_e", f"N={N}: {back} vs {e}")
+        subs.append((["every_n", c["method"], N], True))
+    return {"nontrivial": False, "sub_cases": subs, "class_counts": {"every_n_8_180": len(subs)}}
+
+
 SUBCHECKS = [
     SubCheck("distribution", lambda tier: dist_case(), run_dist, {"quick": 450, "thorough": 4000},
              fixed=fixed_dist),
     SubCheck("roundtrip", lambda tier: roundtrip_case(), run_roundtrip, {"quick": 120, "thorough": 1000}),
+    SubCheck("roundtrip_every_n", None, run_every_n, {"quick": 0, "thorough": 0}, fixed=lambda: [{"method": "mem"}]),
 ]
 
 
